@@ -4,6 +4,7 @@ import (
 	"fmt"
 	"go/constant"
 	"go/token"
+	"go/types"
 	"strings"
 
 	"golang.org/x/tools/go/ssa"
@@ -528,6 +529,58 @@ func checkC13(c *Ctx, r *Report) {
 				}
 			}
 		}
+		// ... and the interval of the following cycles is the live setting: every Ticker.Reset in the janitor is given
+		// a value read from cfg.Cache.CleanupInterval, not one received on the wake-up channel (a wake-up may be dropped
+		// or overtaken, so its payload can be an older interval)
+		nReset := 0
+		for _, g := range li.Fns {
+			if originPkgPath(g) != cachePkg || !strings.Contains(fnKey(g), "cacheJanitor") {
+				continue
+			}
+			eachCall(g, func(call ssa.CallInstruction, n string) {
+				if n != "(*time.Ticker).Reset" {
+					return
+				}
+				nReset++
+				arg := callArgs(call)[1]
+				// j.interval = newInterval; ticker.Reset(j.interval): look at what was just stored into the field
+				if u, isU := arg.(*ssa.UnOp); isU && u.Op == token.MUL {
+					if fa, isFA := u.X.(*ssa.FieldAddr); isFA {
+						eachInstr(g, func(i2 ssa.Instruction) {
+							st, isSt := i2.(*ssa.Store)
+							if !isSt {
+								return
+							}
+							fa2, isFA2 := st.Addr.(*ssa.FieldAddr)
+							if isFA2 && fa2.Field == fa.Field && (sameVal(fa2.X, fa.X) || types.Identical(fa2.X.Type(), fa.X.Type())) && instrDominates(st, call.(ssa.Instruction)) && st.Block() == call.(ssa.Instruction).Block() {
+								arg = st.Val
+							}
+						})
+					}
+				}
+				fromSetting := derivesFromDeep(arg, nil, func(v ssa.Value, _ dctx) bool {
+					c4, isC := v.(*ssa.Call)
+					if !isC || !strings.HasSuffix(calleeName(c4), "config.ConfigProp).Read") {
+						return false
+					}
+					_, p := fieldPath(callArgs(c4)[0])
+					return len(p) > 0 && p[len(p)-1] == "CleanupInterval"
+				})
+				fromChannel := derivesFrom(arg, func(v ssa.Value) bool {
+					if u, isU := v.(*ssa.UnOp); isU && u.Op == token.ARROW {
+						return true
+					}
+					if ex, isE := v.(*ssa.Extract); isE {
+						if _, isSel := ex.Tuple.(*ssa.Select); isSel && ex.Index >= 2 {
+							return true
+						}
+					}
+					return false
+				})
+				r.Check(fromSetting && !fromChannel, "C13.R7", fmt.Sprintf("%s: the ticker is reset to the live cleanup interval (#%d)", fnKey(g), nReset), c.InstrPos(call), "Ticker.Reset(cfg.Cache.CleanupInterval.Read())", "the janitor resets its ticker to a value it received with the wake-up instead of the current setting: a wake-up that was dropped or overtaken leaves the following cleanup cycles on an interval that is no longer configured")
+			})
+		}
+		r.Floor("C13.R7", nReset, 1, "Ticker.Reset sites in the janitor")
 		r.Check(ok, "C13.R7", "periodic cycle reads the live max_cache_size", c.Pos(f.Pos()), "cfg.Cache.MaxCacheSize.Read() per cycle", "ensureCacheSize does not read the live limit")
 	}
 }
